@@ -10,6 +10,8 @@
 //     unchanged; afterwards no package tx is in the pool while an in-package parent is absent; every per-tx result is
 //     keyed by a package wtxid and matches pool membership (txid for a different-witness twin); test_accept never
 //     changes the pool; CTxMemPool::check passes.
+//     A second family {M, Q1(M), Q2 replacing M by RBF, QC(Q1,Q2)} x pool {empty, M, M+Q1} covers package members that
+//     replace a mempool ancestor of another member.
 #include <vx/vx.h>
 
 #include <kits/chainkit.h>
@@ -108,7 +110,14 @@ static CScript P2wsh(const CScript& ws)
 enum { P1 = 0, P2, P3, CH, X, T, NREAL, Z = NREAL, NALL };
 static const char* TXNAME[] = {"P1", "P2", "P3", "CH", "X", "T", "Z"};
 
+// second family (replacement of a mempool ancestor): M (in the pool), Q1 spends M, Q2 double-spends M's input with a much
+// higher fee (conflict with the mempool, not inside the package), QC spends Q1 and Q2
+enum { FM = 0, FQ1, FQ2, FQC, NFAM1 };
+static const char* TXNAME1[] = {"M", "Q1", "Q2", "QC"};
+
 struct Universe {
+    std::vector<const char*> name;         // names of tx[]
+    int nreal{0};                          // transactions used for ProcessNewPackage sequences
     std::vector<CTransactionRef> tx;       // indexed by the enum
     std::vector<CTransactionRef> fillers;  // independent txs used to fill the pool
     CTransactionRef setup;                 // confirmed tx providing the coins
@@ -124,9 +133,22 @@ static CMutableTransaction spend_with_drop_witness(const COutPoint& op, unsigned
     return m;
 }
 // All transactions are a pure function of (setup txid, fee profile).
-static Universe make_universe(const Txid& setup_txid, int profile, CAmount filler_fee)
+static Universe make_universe(const Txid& setup_txid, int profile, CAmount filler_fee, int family = 0)
 {
     Universe U;
+    if (family == 1) {
+        auto c = [&](int i) { return COutPoint(setup_txid, (uint32_t)i); };
+        U.name.assign(TXNAME1, TXNAME1 + NFAM1);
+        U.nreal = NFAM1;
+        U.tx.resize(NFAM1);
+        U.tx[FM] = SpendTx({c(36)}, {COIN_VALUE - 10000});
+        U.tx[FQ1] = SpendTx({COutPoint(U.tx[FM]->GetHash(), 0)}, {COIN_VALUE - 20000});
+        U.tx[FQ2] = SpendTx({c(36), c(37)}, {2 * COIN_VALUE - 300000}); // replaces M (and its descendants) when admitted
+        U.tx[FQC] = SpendTx({COutPoint(U.tx[FQ1]->GetHash(), 0), COutPoint(U.tx[FQ2]->GetHash(), 0)}, {3 * COIN_VALUE - 20000 - 300000 - 50000});
+        return U;
+    }
+    U.name.assign(TXNAME, TXNAME + NALL);
+    U.nreal = NREAL;
     U.tx.resize(NALL);
     const CAmount fee = 10000, p1fee = profile == 1 ? 0 : fee;
     auto c = [&](int i) { return COutPoint(setup_txid, (uint32_t)i); };
@@ -226,10 +248,10 @@ static void layer_a(const Universe& U, bool big)
 }
 
 // ---------------------------------------------------------------- (b) ProcessNewPackage
-enum PoolState { EMPTY = 0, PARENT, TWIN, CONFLICT, FULL_CHEAP, FULL_RICH, FULL_RICH_WIDE, NSTATES };
-static const char* STNAME[] = {"empty", "parent-P2-present", "twin-T-present", "conflict-X-present", "full-cheap-fillers", "full-rich-fillers", "full-rich-fillers-room-for-2"};
+enum PoolState { EMPTY = 0, PARENT, TWIN, CONFLICT, ANC, ANC_CHILD, FULL_CHEAP, FULL_RICH, FULL_RICH_WIDE, NSTATES };
+static const char* STNAME[] = {"empty", "parent-P2-present", "twin-T-present", "conflict-X-present", "ancestor-M-present", "ancestor-M-and-child-Q1-present", "full-cheap-fillers", "full-rich-fillers", "full-rich-fillers-room-for-2"};
 
-struct Group { int state, profile, test_accept; };
+struct Group { int state, profile, test_accept; int family{0}; };
 
 struct World {
     std::unique_ptr<Node> n;
@@ -269,7 +291,7 @@ struct World {
         BlockResult r = n->ProcessBlock(blk);
         if (!r.valid || n->tip()->GetBlockHash() != blk.GetHash()) return "setup block rejected: " + r.reason;
         L.Add(blk);
-        U = [&] { Universe x = make_universe(s.GetHash(), g.profile, (g.state == FULL_RICH || g.state == FULL_RICH_WIDE) ? 400000 : 600); x.setup = U.setup; return x; }();
+        U = [&] { Universe x = make_universe(s.GetHash(), g.profile, (g.state == FULL_RICH || g.state == FULL_RICH_WIDE) ? 400000 : 600, g.family); x.setup = U.setup; return x; }();
         // pool state
         auto must = [&](const CTransactionRef& t, const char* what) -> std::string {
             auto res = n->SubmitTx(t);
@@ -280,6 +302,8 @@ struct World {
         if (g.state == PARENT) e = must(U.tx[P2], "P2");
         if (g.state == TWIN) e = must(U.tx[T], "T");
         if (g.state == CONFLICT) e = must(U.tx[X], "X");
+        if (g.state == ANC || g.state == ANC_CHILD) e = must(U.tx[FM], "M");
+        if (g.state == ANC_CHILD && e.empty()) e = must(U.tx[FQ1], "Q1");
         if (g.state >= FULL_CHEAP) for (auto& f : U.fillers) if (e.empty()) e = must(f, "filler");
         return e;
     }
@@ -299,7 +323,7 @@ static std::string run_case(World& w, const Group& g, const std::vector<int>& se
     CTxMemPool& pool = n.pool();
     Package p;
     std::string name;
-    for (int i : seq) { p.push_back(w.U.tx[i]); name += std::string(TXNAME[i]) + " "; }
+    for (int i : seq) { p.push_back(w.U.tx[i]); name += std::string(w.U.name[i]) + " "; }
     const std::string where = "[" + name + "] pool=" + STNAME[g.state] + " profile=" + u(g.profile) + (g.test_accept ? " test_accept" : "");
     const std::string illformed = !ref_wellformed(p).empty() ? ref_wellformed(p) : (p.size() > 1 && !ref_cwp(p)) ? "not-child-with-parents" : "";
     const auto before = pool_wtxids(pool);
@@ -313,7 +337,7 @@ static std::string run_case(World& w, const Group& g, const std::vector<int>& se
         LOCK(pool.cs);
         auto wc = pool.m_txgraph->GetWorstMainChunk();
         std::string names;
-        for (auto ref : wc.first) { auto& e = static_cast<const CTxMemPoolEntry&>(*ref); for (int i = 0; i < NREAL; i++) if (w.U.tx[i]->GetHash() == e.GetTx().GetHash()) names += std::string(TXNAME[i]) + " "; }
+        for (auto ref : wc.first) { auto& e = static_cast<const CTxMemPoolEntry&>(*ref); for (int i = 0; i < w.U.nreal; i++) if (w.U.tx[i]->GetHash() == e.GetTx().GetHash()) names += std::string(w.U.name[i]) + " "; }
         fprintf(stderr, "[worst chunk] size %zu fee %ld size %d : %s\n", wc.first.size(), (long)wc.second.fee, (int)wc.second.size, names.c_str());
     }
     sig = std::string(STNAME[g.state]) + "|" + u(g.profile) + u(g.test_accept) + "|" + (illformed.empty() ? "ok" : illformed) + "|" + u(res.m_state.IsValid()) + "|";
@@ -344,7 +368,7 @@ static std::string run_case(World& w, const Group& g, const std::vector<int>& se
         for (auto& in : p[i]->vin)
             for (size_t j = 0; j < p.size(); j++)
                 if (j != i && in.prevout.hash == p[j]->GetHash() && !pool.exists(p[j]->GetHash()))
-                    return std::string("dangling-child-") + TXNAME[seq[i]] + "-without-" + TXNAME[seq[j]] + "\t" + TXNAME[seq[i]] + " is in the mempool but its in-package parent " + TXNAME[seq[j]] + " is not: " + where;
+                    return std::string("dangling-child-") + w.U.name[seq[i]] + "-without-" + w.U.name[seq[j]] + "\t" + w.U.name[seq[i]] + " is in the mempool but its in-package parent " + w.U.name[seq[j]] + " is not: " + where;
     }
     // per-tx results: keyed by package wtxids, consistent with membership
     std::set<uint256> pkg_wtxids;
@@ -355,7 +379,7 @@ static std::string run_case(World& w, const Group& g, const std::vector<int>& se
     for (size_t i = 0; i < p.size(); i++) {
         auto it = res.m_tx_results.find(p[i]->GetWitnessHash());
         const bool in_w = pool.exists(p[i]->GetWitnessHash()), in_t = pool.exists(p[i]->GetHash());
-        const std::string tn = TXNAME[seq[i]];
+        const std::string tn = w.U.name[seq[i]];
         if (it == res.m_tx_results.end()) {
             // "If a result is not present, it means validation was unfinished for that transaction."
             if (in_w && !before.count(p[i]->GetWitnessHash().ToUint256())) return "added-without-result-" + tn + "\t" + tn + " was added to the mempool but has no result: " + where;
@@ -383,7 +407,7 @@ static std::string run_case(World& w, const Group& g, const std::vector<int>& se
     }
     if (res.m_state.IsValid()) {
         for (size_t i = 0; i < p.size(); i++)
-            if (!pool.exists(p[i]->GetHash())) return std::string("package-valid-but-tx-absent-") + TXNAME[seq[i]] + "\tpackage state is valid but " + TXNAME[seq[i]] + " is not in the mempool: " + where;
+            if (!pool.exists(p[i]->GetHash())) return std::string("package-valid-but-tx-absent-") + w.U.name[seq[i]] + "\tpackage state is valid but " + w.U.name[seq[i]] + " is not in the mempool: " + where;
         if (any_invalid) return "package-valid-with-invalid-tx\tpackage state is valid but a transaction failed: " + where;
     }
     return "";
@@ -442,6 +466,8 @@ static void group_main(const Group& g, int64_t max_pool_bytes, int maxlen, const
         if (g.state == PARENT) init.txs = {w.U.tx[P2]};
         if (g.state == TWIN) init.txs = {w.U.tx[T]};
         if (g.state == CONFLICT) init.txs = {w.U.tx[X]};
+        if (g.state == ANC) init.txs = {w.U.tx[FM]};
+        if (g.state == ANC_CHILD) init.txs = {w.U.tx[FM], w.U.tx[FQ1]};
         if (g.state >= FULL_CHEAP) init.txs = w.U.fillers;
         init.wtxids = pool_wtxids(pool);
         LOCK(pool.cs);
@@ -458,7 +484,7 @@ static void group_main(const Group& g, int64_t max_pool_bytes, int maxlen, const
         if (idx.empty() || incomplete) return;
         if (vx::deadline_reached()) { incomplete = true; return; }
         std::string name;
-        for (int i : idx) name += std::string(TXNAME[i]) + " ";
+        for (int i : idx) name += std::string(w.U.name[i]) + " ";
         fprintf(f, "B\t%s\n", name.c_str());
         std::string sig;
         std::string r = run_case(w, g, idx, sig);
@@ -475,7 +501,7 @@ static void group_main(const Group& g, int64_t max_pool_bytes, int maxlen, const
     std::function<void()> rec = [&] {
         rec_leaf();
         // full universe up to maxlen; one more level over the sub-universe `extra` (only sequences entirely inside it)
-        if ((int)idx.size() < maxlen) { for (int i = 0; i < NREAL; i++) { idx.push_back(i); rec(); idx.pop_back(); } }
+        if ((int)idx.size() < maxlen) { for (int i = 0; i < w.U.nreal; i++) { idx.push_back(i); rec(); idx.pop_back(); } }
         else if ((int)idx.size() == maxlen && !extra.empty()) {
             bool inside = true;
             for (int i : idx) inside &= std::find(extra.begin(), extra.end(), i) != extra.end();
@@ -552,8 +578,12 @@ int main(int argc, char** argv)
     for (int profile = 0; profile < 2; profile++)
         for (int st = 0; st < NSTATES; st++) {
             if (st == TWIN && profile == 1) continue; // the twin has P1's (zero) fee and cannot be put into the pool
+            if (st == ANC || st == ANC_CHILD) continue; // states of the second family (below)
             groups.push_back({st, profile, 0});
         }
+    // second family: a later package member replaces a mempool ancestor of an earlier one (conflict with the pool only)
+    for (int st : {EMPTY, ANC, ANC_CHILD}) groups.push_back({st, 0, 0, 1});
+    groups.push_back({ANC_CHILD, 0, 1, 1});
     groups.push_back({EMPTY, 0, 1});
     groups.push_back({PARENT, 1, 1});
     if (big) { groups.push_back({TWIN, 0, 1}); groups.push_back({FULL_RICH, 1, 1}); }
@@ -624,9 +654,10 @@ int main(int argc, char** argv)
                 // quick: every sequence of length <= 3, plus length 4 over {P1,P2,P3,CH} where eviction / CPFP matter;
                 // thorough: every sequence of length <= 5
                 int maxlen = big ? 5 : 3;
+                if (g.family == 1 && !big) maxlen = 4; // 4 transactions only: 340 sequences
                 std::vector<int> extra;
                 if (big) extra = {};
-                else if (!g.test_accept && (g.state == EMPTY || g.state == FULL_RICH || g.state == FULL_RICH_WIDE)) extra = {P1, P2, P3, CH};
+                else if (g.family == 0 && !g.test_accept && (g.state == EMPTY || g.state == FULL_RICH || g.state == FULL_RICH_WIDE)) extra = {P1, P2, P3, CH};
                 group_main(g, g.state == FULL_RICH_WIDE ? max_pool_wide : g.state >= FULL_CHEAP ? max_pool : 0, maxlen, extra, pfd[1]);
             }
             close(pfd[1]);
@@ -654,7 +685,7 @@ int main(int argc, char** argv)
     E.set_str("outcome_classes_seen", flags);
     E.exhaustive = !incomplete;
     E.rule = "(a) every sequence of length 1.." + u(big ? 5 : 4) + " over 7 transactions (P1,P2,P3(P1),CH(P1,P2,P3),X conflicts with P2,T twin of P1,Z no inputs) through the 5 context-free predicates vs reference predicates, "
-             "count 24..27 and weight 403999..404004 edges; (b) every sequence of length 1.." + u(big ? 5 : 3) + " over the 6 real transactions" + (big ? "" : " plus every sequence of length 4 over {P1,P2,P3,CH} (empty and full-rich pools)") + " x pool state x fee profile x submit/test_accept "
+             "count 24..27 and weight 403999..404004 edges; (b) every sequence of length 1.." + u(big ? 5 : 3) + " over the 6 real transactions" + (big ? "" : " plus every sequence of length 4 over {P1,P2,P3,CH} (empty and full-rich pools)") + " x pool state x fee profile x submit/test_accept; second family {M, Q1 spends M, Q2 double-spends M's input with a higher fee, QC spends Q1 and Q2}: every sequence of length 1.." + u(big ? 5 : 4) + " x pool {empty, M present, M and Q1 present} "
              "through ProcessNewPackage on a regtest node (one process per group, pool restored to the group's initial state after every case). distinct = predicate verdict classes + distinct (state, profile, well-formedness class, package verdict, per-tx result/membership) signatures";
     E.assume("the universe is one fixed dependency DAG (one child with three parents, one parent depending on another, one conflict pair, one same-txid twin); packages over other topologies (grandparents beyond one level, 25-transaction packages through ProcessNewPackage) are not enumerated");
     E.sample("signatures: " + flags.substr(0, 300));
